@@ -17,7 +17,8 @@ RULE = (
 )
 ASSUMPTIONS = ["Reference grammar for .trs is written in the harness: (\\d{1,3}[ns]|XXXz)(\\d{1,3}[ew]|XXXz)(\\d{2}|XX)."]
 
-TRS_G = re.compile(r"(?P<twp>(?P<tn>\d{1,3})(?P<ns>[ns])|XXXz)(?P<rge>(?P<rn>\d{1,3})(?P<ew>[ew])|XXXz)(?P<sec>\d{2}|XX)")
+# (ASCII digits only: a Twp/Rge/Sec written with other Unicode digits is not the standard form)
+TRS_G = re.compile(r"(?P<twp>(?P<tn>[0-9]{1,3})(?P<ns>[ns])|XXXz)(?P<rge>(?P<rn>[0-9]{1,3})(?P<ew>[ew])|XXXz)(?P<sec>[0-9]{2}|XX)")
 
 _last = {}
 
